@@ -107,6 +107,21 @@ CLAIMS["C15"] = ("other", "memory-ordering discipline: enumeration of every atom
     "access; helpers are lifted to their call sites. Not decided: full memory-model behaviour of whole executions.",
     "DESIGN.md §4 C15", TRUST + " seize::Guard::protect loads SeqCst for pinned guards (read in seize 0.3.3 raw.rs).")
 
+CLAIMS["C10"] = ("other", "MIR path rules (edge dominance, must-pass-through) + affine forms of the size_ctl protocol + evaluated constants",
+    "Clauses: exactly the last participant (won sc-1 CAS and sc-2 == stamp) can set the finishing flag; the publication block (clear "
+    "next_table, swap table, retire old, store 3/4 threshold) is gated by it, ordered and complete; the next table is exactly twice as long; "
+    "initiation is guarded by len < 2^30; the size_ctl bit layout holds for the evaluated constants; every won initiator/helper ticket leads "
+    "to transfer and transfer gives the ticket back on every exit; help_transfer and add_count refuse to join on the same four atoms. Not "
+    "decided: 'every old bin migrated exactly once' and non-overlap of generations over all schedules (needs interleaving semantics).",
+    "DESIGN.md §4 C10", TRUST)
+CLAIMS["C11"] = ("other", "lock-order graph over the resolved call graph + acquire/release pairing and park-protocol path rules",
+    "Clauses; fair-schedule liveness itself is NOT decided. Decided: at most one bin lock is ever held (no acquisition reachable through "
+    "any callee while one is held) and the tree write lock is only taken under a bin lock, paired on all paths with nothing locked inside "
+    "-- so the lock-order graph bin -> root is acyclic and no cyclic wait exists under any schedule; the park protocol (flag-gated park, "
+    "WAITER bit set by a won CAS, handle published before parking, state re-read after wake-up, last reader unparks on READER|WAITER); the "
+    "initialisation ticket is released on every path and losers yield; writers meeting a forwarding marker move on.",
+    "DESIGN.md §4 C11", TRUST + " The SeqCst requirement of the park protocol's store-buffering pattern is deliberately not armed (DESIGN §7).")
+
 NOT_APPLICABLE = {
     "C02": "Quantifies over all operation sequences x hashers x capacities and asserts equality of run-time values (return values, "
            "contents) with a reference map; no path-, type- or call-graph-shaped clause carries it. Its only structural clause "
